@@ -618,24 +618,48 @@ func c07InsertGuards(c *Ctx) {
 			}
 		}
 	}
+	// typestate over feasible paths (helpers split out of Insert are walked in line, a boolean
+	// helper's result is followed): the write is reached with "the key exists" only if the row was
+	// found deleted
 	okTested := false
-	for _, b := range fn.Blocks {
-		iff, isIf := b.Instrs[len(b.Instrs)-1].(*ssa.If)
-		if !isIf {
-			continue
-		}
-		cond, neg := an.StripNot(iff.Cond)
-		if okVal != nil && cond == okVal && b.Dominates(set.Block()) {
-			okTested = true
-		}
-		if an.FieldOfLoad(cond) == rowDeleted {
-			si := 1 // successor when Deleted == false
-			if neg {
-				si = 0
+	{
+		h := an.THooks{}
+		h.Branch = func(iff *ssa.If, side bool, st0 an.TState) an.TState {
+			st := st0.(reinsState)
+			cond, neg := an.StripNot(iff.Cond)
+			if okVal != nil && cond == okVal {
+				okTested = true
+				if side != neg {
+					st.refused = true // reused as "the key exists"
+				}
 			}
-			if !an.ReachableFromBlock(b.Succs[si], set.Block(), map[*ssa.BasicBlock]bool{b: true}) {
-				liveBlocksSet = true
+			if an.FieldOfLoad(cond) == rowDeleted {
+				want := 2
+				if side != neg {
+					want = 1
+				}
+				if st.deleted != 0 && st.deleted != want {
+					return nil
+				}
+				st.deleted = want
 			}
+			return st
+		}
+		reached := false
+		liveBlocksSet = true
+		h.Instr = func(in ssa.Instruction, st0 an.TState) an.TState {
+			st := st0.(reinsState)
+			if in == set.(ssa.Instruction) {
+				reached = true
+				if st.refused && st.deleted != 1 {
+					liveBlocksSet = false
+				}
+			}
+			return st
+		}
+		an.WalkTypestate(fn, reinsState{}, h, c.Scope(fn))
+		if !reached {
+			liveBlocksSet = false
 		}
 	}
 	c.R.Cond(pk && okTested && liveBlocksSet, rule, name+": existing live row rejects the insert", c.P.Pos(set.Pos()),
